@@ -1681,7 +1681,18 @@ def c11_search(seed, ncfg, pairs_per_cfg):
             try:
                 bad, rec = c11_pair(cfg, beta, (k, comps), plan, law)
             except ScriptError as ex:
-                bad, rec = 'push-forward / scripting failed: %s' % ex, {'dk': plan['newk'] - k}
+                # the script did not fit what the real code asked for.  A change of the code under test does that
+                # every time; a scripting failure that does not repeat on the same input with fresh objects is
+                # the harness's (seen once, in a fresh sandbox only, never reproduced: DESIGN 11.4b) and is
+                # counted, not reported
+                first = str(ex)
+                try:
+                    law = IndexLaw(cfg)
+                    bad, rec = c11_pair(cfg, beta, (k, comps), plan, law)
+                    cov['script_failures_not_repeated'] = cov.get('script_failures_not_repeated', 0) + 1
+                    cov.setdefault('script_failures_not_repeated_texts', []).append(first[:200])
+                except ScriptError as ex2:
+                    bad, rec = 'push-forward / scripting failed: %s' % ex2, {'dk': plan['newk'] - k}
             except Exception as ex:                      # the real step raised
                 bad, rec = 'the real code raised %r on a scripted move' % (ex,), {'dk': plan['newk'] - k}
             cov['pairs'] += 1
